@@ -813,6 +813,6 @@ def run(tier, seed):
 MANIFEST = {
     "engine": "H",
     "technique": "differential explicit-state search: the same IStorageServer operation histories are executed on twin real storage servers, one through the HTTP client/server stack (StubTreq, no network) and one through the Foolscap-side wrappers called directly, with breadth-first enumeration of histories (hbfs's algorithm, one worker pool per level for all domains) and exhaustive enumeration of chunked-upload plans",
-    "text": "Every history up to depth 4 (thorough 5) over an immutable alphabet (allocate, every sub-range write of a 4-byte share, conflicting/overflowing/dead-handle writes, abort, add_lease, advise, zero-length read, full read sweep) and a mutable alphabet (12 read-test-write requests, add_lease, advise, reads of missing shares and zero-length ranges, full slot_readv sweep) is run on both paths; after every step the client-visible results (exception types mapped through a class table), the byte digests of the two storage directories and the in-progress upload tables must be equal. In addition every way of cutting a 4- and a 6-byte share into at most 3 chunks, in every order, is uploaded on both paths and every read with offset <= size+2 is compared.",
+    "text": "Every history up to depth 4 (thorough 5) over an immutable alphabet (allocate, every sub-range write of a 4-byte share, conflicting/overflowing/dead-handle writes, abort, add_lease, advise, zero-length read, full read sweep) and a mutable alphabet (12 read-test-write requests, add_lease, advise, reads of missing shares and zero-length ranges, full slot_readv sweep) is run on both paths; after every step the client-visible results (exception types mapped through a class table), the byte digests of the two storage directories and the in-progress upload tables must be equal. In addition every way of cutting a 4- and a 6-byte share into at most 3 chunks, in every order, is uploaded on both paths and every read with offset <= size+2 is compared. Part 5: 200000-byte immutable and mutable shares read around the HTTP server's 64 KiB streaming piece size.",
     "note": "Trusted: the local IRemoteReference stand-in (no foolscap serialisation or schema checks) and the reference bitmap that decides when close() is issued. By-design differences accepted: value returned by close(), abort through a handle of a finished/aborted upload (HTTP 405 vs silent), exception types, incomplete-share close (not issued). Known disagreements on the unchanged tree have their own signatures: read-differs:zero-length, slot_readv-zero-length:error/ok, slot_readv-missing-share:error/ok.",
 }
